@@ -21,7 +21,7 @@ RULE = ("(enumerated completely in both tiers) every chain nesting of depth 1..4
 ASSUMPTIONS = ["only LIFO nestings (contexts/decorators); generator-suspended scopes are not nestings",
                "turn_memory_guarding_* inside a scope sets the current value and the scope restores its saved value on exit"]
 N_CHAIN = sum(6 ** L * (1 + L) for L in range(1, 5))
-TIERS = {"quick": {"cases": N_CHAIN + 3000}, "thorough": {"cases": N_CHAIN + 600000}}
+TIERS = {"quick": {"cases": N_CHAIN + 12000}, "thorough": {"cases": N_CHAIN + 600000}}
 FLOORS = {"quick": {"state_checks": 60000, "noautodiff_probes": 8000, "chain_cases": N_CHAIN},
           "thorough": {"state_checks": 300000, "noautodiff_probes": 40000, "chain_cases": N_CHAIN}}
 MGRS = ["no_autodiff", "mem_guard_off", "mem_guard_on"]
